@@ -54,6 +54,7 @@ pub fn tname(t: u8) -> &'static str {
 pub struct ServerSnap {
     pub clients: Vec<(u64, Option<SocketAddr>, Option<u64>, Option<u128>)>, // id, addr, user-data hash, ms since last received
     pub connected: usize,
+    pub pending: Vec<(SocketAddr, u64)>, // half-open entries: address, client id
 }
 
 #[derive(Clone, PartialEq, Eq, Debug)]
@@ -81,6 +82,11 @@ impl WorldB {
                 })
                 .collect(),
             connected: self.server.connected_clients(),
+            pending: {
+                let mut p = self.server.verif_pending();
+                p.sort();
+                p
+            },
         }
     }
 
@@ -387,12 +393,14 @@ impl WorldB {
                 obs.violate(p, "unauthentic-datagram-had-effect", &format!("{}/{}/{}", why, k, tname(ptype)), format!("datagram {} from {} ({:?})", ix, src, producer));
             }
             if snap_before != snap_after && kind.is_none() {
-                let refreshed = snap_before.clients.len() == snap_after.clients.len()
+                let pending_changed = snap_before.pending != snap_after.pending;
+                let refreshed = !pending_changed
+                    && snap_before.clients.len() == snap_after.clients.len()
                     && snap_before.clients.iter().zip(snap_after.clients.iter()).all(|(a, b)| a.0 == b.0 && a.1 == b.1 && a.2 == b.2);
                 obs.violate(
                     "C07",
                     if refreshed { "unauthentic-datagram-refreshed-timeout" } else { "unauthentic-datagram-changed-table" },
-                    &format!("{}/{}/{}", why, tname(ptype), if connected_addr { "connected-address" } else { "other-address" }),
+                    &format!("{}/{}/{}", why, tname(ptype), if pending_changed { "half-open-table" } else if connected_addr { "connected-address" } else { "other-address" }),
                     format!("datagram {} from {}", ix, src),
                 );
                 if refreshed {
@@ -765,6 +773,10 @@ impl WorldB {
                     &format!("{}/{}/client", why, tname(ptype)),
                     format!("datagram {} to slot {}: {:?} -> {:?}", ix, slot, before, after),
                 );
+                if refreshed && before.connected {
+                    // C18: forged or replayed packets do not postpone a timeout (client side)
+                    obs.violate("C18", "unauthentic-datagram-postpones-timeout", &format!("{}/{}/client", why, tname(ptype)), format!("datagram {} to slot {}", ix, slot));
+                }
             }
         } else {
             let ep = self.slots[slot].epoch;
